@@ -302,8 +302,10 @@ class Scope:
         elif self._is_suppressed(exc_val) or exc_type is None:
             # we do not have an exception to propagate, take whatever we can get
             privileged, concurrent = self._collect_exceptions()
-            if privileged is not None or concurrent is not None:
-                raise privileged or concurrent
+            if privileged is not None:
+                raise privileged
+            if concurrent is not None:
+                raise concurrent
             # we handled our own and there was nothing else to propagate
             return False
         else:
